@@ -493,6 +493,140 @@ let check_tree_split tag (nodes : node list) (groups : string list) =
         end
       end) groups
 
+(* ================================================================================================================== *)
+(* extension 3 (C10_TreeFit): the greedy decision-tree fit                                                              *)
+(*   TD / TF / TG / TS: the whole dataset of the case (all rows), the gradients of all rows, the fit list (row indices)  *)
+(*   TFIT id dtree-fit crit depth=D min_split=M | score or nofit | dtree:...                                             *)
+(*   the extracted tree_fit (exact rationals, one-thread tie order) must return the SAME node table: features, exact      *)
+(*   mid-point thresholds, links, table indices; leaf tables within 1e-9 of the summed residual magnitudes of the leaf;   *)
+(*   no fit exactly when the library returns no_fit_score; score = the model's sum of terminal stump scores (RSS: 1e-9    *)
+(*   of the summed squares; AIC / AICc / BIC: interval of the criterion of the exact terminal RSS).                       *)
+(*   A disagreement is reported (MISMATCH ext-treefit-xxx) unless one of the stumps fitted by the model has a second         *)
+(*   candidate (other feature / threshold) within 1e-12 of the best (relative to the summed squares): the floating-point   *)
+(*   comparison may then go either way (counted as treefit_ties).                                                          *)
+(*   searched, not proved: every sample of the fit list whose walk visits a pair is recorded at that pair (converse of     *)
+(*   C10_treefit_greedy's last clause): MISMATCH ext-treefit-reach.                                                        *)
+(* ================================================================================================================== *)
+let tf_feats : (int, float array option) Hashtbl.t = Hashtbl.create 16
+let tf_rows = ref 0 and tf_no = ref 1 and tf_nf = ref 0
+let tf_res : q list array ref = ref [||]
+let tf_ids : int list ref = ref []
+let tf_ds_cache : fval list list option ref = ref None
+let ext_tfit = ref 0 and ext_tfit_ok = ref 0 and ext_tfit_none = ref 0 and ext_tfit_ties = ref 0 and ext_tfit_reach = ref 0
+and ext_tfit_f7 = ref 0 and ext_tfit_deep = ref 0
+let tf_ds () = match !tf_ds_cache with
+  | Some d -> d
+  | None ->
+      let d = List.init !tf_rows (fun i -> List.init !tf_nf (fun f ->
+          match Hashtbl.find_opt tf_feats f with
+          | Some (Some a) -> if Float.is_nan a.(i) then FMiss else FNum (q_of_float a.(i))
+          | _ -> FMiss)) in
+      tf_ds_cache := Some d; d
+
+let check_tfit id crit depth min_split score w =
+  Stdlib.incr total; Stdlib.incr ext_tfit;
+  let what_of s = Printf.sprintf "%s depth=%d min_split=%d: %s" crit depth min_split s in
+  let nouts = !tf_no in
+  let non = nat_of_int nouts in
+  let ds = tf_ds () and res = Array.to_list !tf_res in
+  let nf = nat_of_int !tf_nf in
+  let adm n = not (crit = "aicc" && B.int_of_big_int n = 2 * nouts + 2) in
+  let ids = List.map nat_of_int !tf_ids in
+  let m = tree_fit non !floor_ adm ds res nf (B.big_int_of_int depth) (B.big_int_of_int min_split) ids in
+  let sumr2 = List.fold_left (fun acc i -> List.fold_left (fun a x -> a +/ (x */ x)) acc (!tf_res).(i)) qz !tf_ids in
+  let win = (rel12 */ sumr2) +/ tiny in
+  let near a b = close a b (win +/ (rel12 */ (qabs a +/ qabs b))) in
+  let ambiguous tr =
+    List.exists (fun (l, _) ->
+        if not (adm (B.big_int_of_int (List.length l))) then false
+        else match stump_best non !floor_ ds res nf l with
+          | None -> false
+          | Some b ->
+              let cands = List.concat_map (fun f -> stump_xcands non !floor_ (nat_of_int f) (tcol ds res (nat_of_int f) l))
+                  (List.init !tf_nf (fun f -> f)) in
+              List.exists (fun c -> not (c.sc_f = b.sc_f && qeq_ c.sc_thr b.sc_thr) && near c.sc_score b.sc_score) cands) tr in
+  let disagree kind tr detail =
+    if ambiguous tr then Stdlib.incr ext_tfit_ties
+    else report "MISMATCH" kind id (what_of detail) in
+  let real = if score = "nofit" then None else (match parse_w w with Some (WTree (n, t)) -> Some (n, t) | _ -> None) in
+  match m, real with
+  | FitFuel, _ -> report "MISMATCH" "ext-treefit-fuel" id (what_of "the model ran out of fuel (C10_treefit_terminates)")
+  | FitNone _, None -> Stdlib.incr ext_tfit_none
+  | FitNone tr, Some _ ->
+      disagree "ext-treefit-nofit" tr
+        (Printf.sprintf "model: no fit (a queued list of %d samples has no stump), implementation score=%s %s"
+           (match List.rev tr with (l, _) :: _ -> List.length l | [] -> 0) score w)
+  | FitOK (nodes, _, sc, tr), None ->
+      disagree "ext-treefit-nofit" tr
+        (Printf.sprintf "model fits a tree of %d entries (score %h), implementation: no fit" (List.length nodes) (float_of_q sc))
+  | FitOK (nodes, tables, sc, tr), Some (rn, rt) ->
+      let same_node (a : node) (b : node) =
+        a.n_feature = b.n_feature && qeq_ a.n_thr b.n_thr && B.eq_big_int a.n_next b.n_next && B.eq_big_int a.n_table b.n_table in
+      let str_nodes l = String.concat "~" (List.map (fun (a : node) ->
+          Printf.sprintf "%d_%h_%s_%s" (int_of_nat a.n_feature) (float_of_q a.n_thr) (B.string_of_big_int a.n_next) (B.string_of_big_int a.n_table)) l) in
+      if List.length nodes <> List.length rn || not (List.for_all2 same_node nodes rn) then
+        disagree "ext-treefit-nodes" tr (Printf.sprintf "model node table %s implementation %s" (str_nodes nodes) w)
+      else begin
+        Stdlib.incr ext_tfit_ok;
+        if List.length nodes > 2 then Stdlib.incr ext_tfit_deep;
+        let narr = Array.of_list nodes in
+        (* leaf tables: within 1e-9 of the summed residual magnitudes of the samples recorded for the terminal pair *)
+        let bad = ref (List.length tables <> List.length rt) in
+        if !bad then report "MISMATCH" "ext-treefit-tables" id (what_of (Printf.sprintf "model has %d tables, implementation %d %s" (List.length tables) (List.length rt) w));
+        List.iteri (fun k (l, _) ->
+            let a = narr.(2 * k) in
+            if not !bad && B.sign_big_int a.n_next = 0 then begin
+              let t0 = B.int_of_big_int a.n_table in
+              for side = 0 to 1 do
+                let mt = row (t0 + side) tables and it = row (t0 + side) rt in
+                for o = 0 to nouts - 1 do
+                  let mag = List.fold_left (fun acc i -> acc +/ qabs (rget o (!tf_res).(int_of_nat i))) qz l in
+                  if not !bad && not (close (rget o mt) (rget o it) ((rel9 */ mag) +/ tiny)) then begin
+                    bad := true;
+                    report "MISMATCH" "ext-treefit-tables" id
+                      (what_of (Printf.sprintf "pair %d side %d output %d: model mean residual=%h implementation=%h %s" (2 * k) side o
+                                  (float_of_q (rget o mt)) (float_of_q (rget o it)) w))
+                  end
+                done
+              done
+            end) tr;
+        (* the score: sum of the terminal stump scores *)
+        let minsz = B.big_int_of_int (min 10 (!tf_rows * min_split / 100)) in
+        let s = parse_float score in
+        if crit = "rss" then begin
+          if not (close (q_of_float s) sc ((rel9 */ sumr2) +/ tiny)) then
+            report "MISMATCH" "ext-treefit-score" id (what_of (Printf.sprintf "model score (sum of the terminal stump scores)=%h implementation=%s %s" (float_of_q sc) score w))
+        end else begin
+          let dr = 1e-9 *. float_of_q sumr2 +. 1e-300 and fl = float_of_q !floor_ in
+          let lo = ref 0.0 and hi = ref 0.0 in
+          List.iteri (fun k (l, d) ->
+              if B.sign_big_int narr.(2 * k).n_next = 0 then begin
+                let r = float_of_q (clamp !floor_ (tree_rss non ds res nodes tables l)) in
+                let n = List.length l in
+                lo := !lo +. crit_value crit (Float.max fl (r -. dr)) (2 * nouts + 1) n;
+                hi := !hi +. crit_value crit (r +. dr) (2 * nouts + 1) n
+              end; ignore d) tr;
+          let eps = 1e-9 *. (1.0 +. Float.abs s) in
+          if not (s >= !lo -. eps && s <= !hi +. eps) then
+            report "MISMATCH" "ext-treefit-score" id (what_of (Printf.sprintf "%s score=%s outside [%h, %h] = sum of the criterion of the terminal RSS of the model %s" crit score !lo !hi w))
+        end;
+        (* C10_treefit_score, evaluated (a theorem: must hold exactly) *)
+        if not (qeq_ sc (leaf_rss_sum non !floor_ ds res (B.big_int_of_int depth) minsz nodes tables tr)) then
+          report "PROPFAIL" "ext-treefit-leafsum" id (what_of "the model score is not the sum of the clamped terminal RSS of the tree's predictions");
+        (* searched: a sample of the fit list whose walk visits a pair is recorded at that pair *)
+        Stdlib.incr ext_tfit_reach;
+        let fuel = nat_of_int (List.length nodes) in
+        let uniq = List.sort_uniq compare !tf_ids in
+        let darr = Array.of_list ds in
+        List.iteri (fun k (l, _) ->
+            if k > 0 then
+              List.iter (fun i ->
+                  if reaches fuel nodes B.zero_big_int (B.big_int_of_int (2 * k)) darr.(i) && not (List.exists (fun j -> int_of_nat j = i) l) then
+                    report "MISMATCH" "ext-treefit-reach" id (what_of (Printf.sprintf "row %d reaches pair %d by the walk but is not in the list the pair was fitted on %s" i (2 * k) w))) uniq) tr;
+        (* observation F7: the score is not the RSS of the predictions on the fit list when samples are dropped / repeated *)
+        if crit = "rss" && not (close sc (clamp !floor_ (tree_rss non ds res nodes tables ids)) ((rel9 */ sumr2) +/ tiny)) then Stdlib.incr ext_tfit_f7
+      end
+
 (* ---- main loop -------------------------------------------------------------------------------------------------- *)
 let kv tok = match split '=' tok with [k; v] -> (k, v) | _ -> (tok, "")
 let () =
@@ -546,8 +680,23 @@ let () =
             | Some w -> (match parse_w w with Some wl -> check_sub tag wl pos groups | None -> ())
             | None -> ())
        | ["MERGE"; id; "|"; before; "|"; after] -> check_merge id before after
+       | "TD" :: _ :: rest ->
+           Hashtbl.reset tf_feats; tf_ds_cache := None; tf_ids := []; tf_res := [||];
+           List.iter (fun t -> match kv t with
+               | ("rows", v) -> tf_rows := int_of_string v
+               | ("no", v) -> tf_no := int_of_string v
+               | ("nf", v) -> tf_nf := int_of_string v
+               | _ -> ()) rest
+       | ["TF"; _; f; "S"; vals] -> Hashtbl.replace tf_feats (int_of_string f) (Some (Array.of_list (floats_of vals)))
+       | ["TF"; _; f; "X"] -> Hashtbl.replace tf_feats (int_of_string f) None
+       | ["TG"; _; vals] -> tf_res := Array.of_list (List.map (fun s -> List.map qopp (qs_of s)) (split ';' vals))
+       | ["TS"; _; vals] -> tf_ids := List.map int_of_string (split ',' vals)
+       | ["TFIT"; id; _; crit; d; ms; "|"; score; "|"; w] ->
+           check_tfit id crit (int_of_string (snd (kv d))) (int_of_string (snd (kv ms))) score w
        | _ -> ()
      done
    with End_of_file -> ());
   Printf.printf "EXT-DONE kbest=%d ksplit=%d tree=%d crit=%d ties_skipped=%d crit_skipped=%d sub=%d\n" !ext_kbest !ext_ksplit !ext_tree !ext_crit !ext_ties !ext_skipped !ext_sub;
+  Printf.printf "TREEFIT-DONE treefit=%d treefit_same_table=%d treefit_deep=%d treefit_nofit=%d treefit_ties=%d treefit_reach=%d treefit_score_not_rss=%d\n"
+    !ext_tfit !ext_tfit_ok !ext_tfit_deep !ext_tfit_none !ext_tfit_ties !ext_tfit_reach !ext_tfit_f7;
   Printf.printf "MODEL-DONE checked=%d mismatches=%d\n" !total !mism
